@@ -43,6 +43,14 @@ inductive Expr where
   | func (name : String) (args : List Expr)  -- Anonymous
 deriving Repr, Inhabited
 
+/-- how a prefix-operator method (`neg_sql`, `bitwisenot_sql`) decides to put a space before its operand
+    (shape extracted from the source by the translator):
+    `text` — looks at the operand's GENERATED TEXT (`this_sql[0] == "-"`, `this_sql[:1] == "~"`, `.startswith`);
+    `node` — looks at the operand's node class (`isinstance(operand, exp.Neg)`); `none` — no guard -/
+inductive Guard where
+  | text | node | none | unknown
+deriving DecidableEq, Repr, Inhabited
+
 /-- one ladder level: `Parser.<LEVEL>` as (token type, node class) pairs -/
 abbrev Level := List (String × String)
 
@@ -53,6 +61,8 @@ structure Tables where
   lower : List Level                 -- BITWISE, TERM, FACTOR, EXPONENT
   genOps : List (String × String × String)   -- node class ↦ (token type the operator text lexes to, operator text)
   rangeToks : List String           -- Parser.RANGE_PARSERS keys
+  negGuard : Guard                   -- shape of the guard in the dialect's `neg_sql`
+  bnotGuard : Guard                  -- shape of the guard in the dialect's `bitwisenot_sql`
   normalizeNotNull : Bool            -- Dialect.NORMALIZE_NOT_NULL
   identStart : String                -- Dialect.IDENTIFIER_START / END
   identEnd : String
